@@ -78,8 +78,9 @@ func (k Keeper) HandleUpgrade(ctx sdk.Ctx, aclKey string, paramValue interface{}
 	subspaceName, paramKey := types.SplitACLKey(aclKey)
 	space, ok := k.spaces[subspaceName]
 	if !ok {
-		k.Logger(ctx).Error(types.ErrSubspaceNotFound(types.ModuleName, subspaceName).Error())
-		os.Exit(1)
+		err := types.ErrSubspaceNotFound(types.ModuleName, subspaceName)
+		k.Logger(ctx).Error(err.Error())
+		return err.Result()
 	}
 	space.Set(ctx, []byte(paramKey), paramValue)
 	k.spaces[subspaceName] = space
@@ -121,8 +122,9 @@ func (k Keeper) ModifyParam(ctx sdk.Ctx, aclKey string, paramValue []byte, owner
 	subspaceName, paramKey := types.SplitACLKey(aclKey)
 	space, ok := k.spaces[subspaceName]
 	if !ok {
-		k.Logger(ctx).Error(types.ErrSubspaceNotFound(types.ModuleName, subspaceName).Error())
-		os.Exit(1)
+		err := types.ErrSubspaceNotFound(types.ModuleName, subspaceName)
+		k.Logger(ctx).Error(err.Error())
+		return err.Result()
 	}
 	space.Update(ctx, []byte(paramKey), paramValue)
 	k.spaces[subspaceName] = space
